@@ -73,6 +73,14 @@ theorem mem_probeEvs (id : Nat) (ns : List PyStr) (e : Ev) (h : e ∈ probeEvs i
   obtain ⟨n, hn, rfl⟩ := h
   exact ⟨n, hn, rfl⟩
 
+/-- a failed call-by-name failed before the call: the read failed, and nothing was added -/
+theorem thenCall_error (o : Obj) (r : Res) (e : Err) (h : (thenCall o r).out = .error e) :
+    r.out = .error e ∧ (thenCall o r).log = r.log := by
+  unfold thenCall at h ⊢
+  cases hr : r.out with
+  | ok a => cases a <;> simp [hr] at h
+  | error e' => simp [hr] at h ⊢; exact h
+
 /-! ### `dict.update` facts -/
 
 @[simp] theorem upd_none {α} (a : α) : upd none a = a := rfl
